@@ -642,3 +642,150 @@ Proof.
   cbn [filter]. unfold has_piece at 1.
   destruct (Nat.ltb_spec (Nat.max (fst l) (fst m)) (Nat.min (content_end env sk l) (snd m))); [lia|exact IH].
 Qed.
+
+(* ------------------------------------------------------------------ a plain submatch has exactly one piece *)
+Lemma nth_error_skipn_add {A} (l : list A) : forall s i, nth_error (skipn s l) i = nth_error l (s + i).
+Proof.
+  induction l as [|x l IH]; intros [|s] i; cbn [skipn Nat.add]; try reflexivity.
+  - now destruct i.
+  - cbn [nth_error]. apply IH.
+Qed.
+Lemma nth_error_firstn_lt {A} (l : list A) : forall n i, i < n -> nth_error (firstn n l) i = nth_error l i.
+Proof.
+  induction l as [|x l IH]; intros n i H; [now rewrite firstn_nil|].
+  destruct n; [lia|]. destruct i; cbn [firstn nth_error]; [reflexivity|apply IH; lia].
+Qed.
+
+Lemma suffix_last lt buf s e :
+  e <= length buf -> lt_is_suffix lt (sub buf s e) = true -> nth_error buf (e - 1) = Some (lt_byte lt).
+Proof.
+  intros He H. unfold lt_is_suffix in H. destruct (rev (sub buf s e)) as [|b r] eqn:Er; [discriminate|].
+  apply N.eqb_eq in H. subst b.
+  assert (sub buf s e = rev r ++ [lt_byte lt]) as Hs.
+  { rewrite <- (rev_involutive (sub buf s e)), Er. reflexivity. }
+  assert (length (sub buf s e) = e - s) as Hl.
+  { unfold sub. rewrite firstn_length, skipn_length. lia. }
+  assert (length (rev r) + 1 = e - s) as Hl2 by (rewrite <- Hl, Hs, app_length; reflexivity).
+  assert (nth_error (sub buf s e) (length (rev r)) = Some (lt_byte lt)) as Hn.
+  { rewrite Hs, nth_error_app2, Nat.sub_diag by lia. reflexivity. }
+  unfold sub in Hn. rewrite nth_error_firstn_lt, nth_error_skipn_add in Hn by lia.
+  rewrite <- Hn. f_equal. lia.
+Qed.
+
+(* what LineStep guarantees about every line of a block *)
+Definition line_ok (ltb : byte) (buf : bytes) (se : nat * nat) : Prop :=
+  fst se < snd se <= length buf /\
+  (forall p, fst se <= p < snd se - 1 -> nth_error buf p <> Some ltb) /\
+  (snd se = length buf \/ nth_error buf (snd se - 1) = Some ltb).
+
+Lemma line_spans_aux_inv ltb buf : forall l pre start,
+  buf = pre ++ l -> start <= length pre ->
+  (forall p, start <= p < length pre -> nth_error buf p <> Some ltb) ->
+  Forall (line_ok ltb buf) (line_spans_aux ltb l start (length pre)).
+Proof.
+  induction l as [|b r IH]; intros pre start Hb Hle Hno; cbn [line_spans_aux].
+  - assert (length buf = length pre) as Hlen by (rewrite Hb, app_nil_r; reflexivity).
+    destruct (Nat.ltb_spec start (length pre)); constructor; [|constructor].
+    unfold line_ok. cbn [fst snd]. repeat split; [lia|lia| |left; lia].
+    intros p Hp. apply Hno. lia.
+  - assert (buf = (pre ++ [b]) ++ r) as Hb' by (now rewrite <- app_assoc).
+    assert (length (pre ++ [b]) = S (length pre)) as Hl by (rewrite app_length; cbn [length]; lia).
+    assert (nth_error buf (length pre) = Some b) as Hnb.
+    { rewrite Hb, nth_error_app2, Nat.sub_diag by lia. reflexivity. }
+    assert (length buf = length pre + S (length r)) as Hlen by (rewrite Hb, app_length; reflexivity).
+    destruct (N.eqb_spec b ltb) as [->|Hne].
+    + constructor.
+      * unfold line_ok. cbn [fst snd]. repeat split; [lia|lia| |right].
+        -- intros p Hp. apply Hno. lia.
+        -- cbn [Nat.sub]. rewrite Nat.sub_0_r. exact Hnb.
+      * rewrite <- Hl. apply IH; [exact Hb'|lia|]. intros p Hp. lia.
+    + rewrite <- Hl. apply IH; [exact Hb'|lia|]. intros p Hp. rewrite Hl in Hp.
+      destruct (Nat.eq_dec p (length pre)) as [->|Hpp]; [rewrite Hnb; congruence|apply Hno; lia].
+Qed.
+
+Lemma block_lines_ok env sk : Forall (line_ok (lt_byte (e_lt env)) (k_bytes sk)) (block_lines env sk).
+Proof.
+  unfold block_lines, line_spans.
+  apply (line_spans_aux_inv (lt_byte (e_lt env)) (k_bytes sk) (k_bytes sk) [] 0 eq_refl (Nat.le_refl _)).
+  intros p Hp. cbn [length] in Hp. lia.
+Qed.
+
+Section OnePiece.
+  Variable env : senv.
+  Variable sk : sunk.
+  Variable m : nat * nat.
+  Hypothesis Hne : fst m < snd m.
+  Hypothesis Hin : snd m <= length (k_bytes sk).
+  (* no byte of the submatch is the terminator byte; under --crlf its first byte is not a CR either *)
+  Hypothesis Hplain : forall p, fst m <= p < snd m -> nth_error (k_bytes sk) p <> Some (lt_byte (e_lt env)).
+  Hypothesis Hcr : e_lt env = LTCrlf -> nth_error (k_bytes sk) (fst m) <> Some 13%N.
+
+  Lemma no_piece_behind : forall r, Forall (fun l => snd m <= fst l) r ->
+    length (filter (fun l => has_piece (fst l) (content_end env sk l) m) r) = 0.
+  Proof.
+    induction r as [|l r IH]; intro H; [reflexivity|]. inversion H as [|? ? Hl Hr]; subst. cbn [filter].
+    unfold has_piece at 1.
+    destruct (Nat.ltb_spec (Nat.max (fst l) (fst m)) (Nat.min (content_end env sk l) (snd m))); [lia|now apply IH].
+  Qed.
+
+  Lemma pieces_unique s e : forall lines lo,
+    spans_ordered lo lines -> In (s, e) lines -> s <= fst m -> snd m <= e ->
+    has_piece s (content_end env sk (s, e)) m = true -> pieces_of env sk lines m = 1.
+  Proof.
+    induction lines as [|l r IH]; intros lo Hord Hi Hs He Hp; [destruct Hi|].
+    cbn [spans_ordered] in Hord. destruct Hord as (H1 & H2 & H3). unfold pieces_of. cbn [filter].
+    destruct Hi as [->|Hi].
+    - cbn [fst snd] in *. rewrite Hp. cbn [length]. f_equal. apply no_piece_behind.
+      apply spans_ordered_lower in H3. eapply Forall_impl; [|exact H3]. cbn beta. intros x Hx. lia.
+    - assert (snd l <= s) as Hls.
+      { apply spans_ordered_lower in H3. rewrite Forall_forall in H3. apply (H3 _ Hi). }
+      unfold has_piece at 1. pose proof (trim_le (e_lt env) (k_bytes sk) (fst l) (snd l)) as Ht.
+      fold (content_end env sk l) in Ht.
+      destruct (Nat.ltb_spec (Nat.max (fst l) (fst m)) (Nat.min (content_end env sk l) (snd m))); [lia|].
+      apply (IH (snd l)); assumption.
+  Qed.
+
+  Theorem plain_submatch_has_one_piece : pieces_of env sk (block_lines env sk) m = 1.
+  Proof.
+    destruct (line_spans_aux_cover (lt_byte (e_lt env)) (k_bytes sk) 0 0 (fst m)) as ([s e] & Hse & Hp); [lia|lia|].
+    cbn [fst snd] in Hp. fold (line_spans (lt_byte (e_lt env)) (k_bytes sk)) in Hse. fold (block_lines env sk) in Hse.
+    pose proof (block_lines_ok env sk) as Hok. rewrite Forall_forall in Hok.
+    destruct (Hok _ Hse) as ((Hlt & Hlen) & Hno & Hend). cbn [fst snd] in Hlt, Hlen, Hno, Hend.
+    assert (snd m <= e) as Hme.
+    { destruct (Nat.le_gt_cases (snd m) e) as [|Hgt]; [assumption|]. exfalso.
+      destruct Hend as [Hend|Hend]; [lia|]. apply (Hplain (e - 1)); [lia|exact Hend]. }
+    apply (pieces_unique s e (block_lines env sk) 0); [apply line_spans_ordered|exact Hse|lia|exact Hme|].
+    unfold has_piece, content_end. cbn [fst snd]. apply Nat.ltb_lt.
+    assert (fst m < trim_line_terminator (e_lt env) (k_bytes sk) s e) as Htrim; [|lia].
+    unfold trim_line_terminator. destruct (lt_is_suffix (e_lt env) (sub (k_bytes sk) s e)) eqn:Esuf; [|lia].
+    apply suffix_last in Esuf; [|exact Hlen].
+    assert (fst m <> e - 1) as Hn1 by (intros Heq; apply (Hplain (e - 1)); [lia|exact Esuf]).
+    destruct (e_lt env) as [b|] eqn:Elt; [lia|].
+    destruct (Nat.ltb_spec 0 (e - 1)); cbn [andb]; [|lia].
+    destruct (nth_error (k_bytes sk) (e - 1 - 1)) as [n|] eqn:En; cbv iota; [|lia].
+    destruct (N.eq_dec n 13) as [->|Hn13].
+    - assert (fst m <> e - 1 - 1) as Hn2 by (intros Heq; rewrite Heq in Hcr; apply Hcr; [reflexivity|exact En]).
+      lia.
+    - assert ((match n with 13%N => true | _ => false end) = false) as Hf.
+      { destruct n as [|p]; [reflexivity|]. do 4 (destruct p as [p|p|]; try reflexivity). congruence. }
+      rewrite Hf. lia.
+  Qed.
+End OnePiece.
+
+(* all submatches plain (non-empty, inside the block, no terminator byte, not starting with a CR under
+   --crlf): the number of multi-line -o records of the event is its number of submatches *)
+Theorem only_matching_multi_line_plain_event find_at cfg env path m l :
+  e_multi env = true -> st_only_matching cfg = true ->
+  range_ok find_at env (m_buf m) (m_re m) ->
+  successive find_at env (m_buf m) (m_rs m) (m_re m) = Some l ->
+  let subs := submatches_of (m_buf m) (m_rs m) (m_re m) l in
+  let sk := sunk_of m subs in
+  subs <> [] -> Forall (plain_submatch env (m_bytes m)) subs ->
+  length (om_block_records cfg env path sk (block_lines env sk) 0) = nsub find_at env m.
+Proof.
+  intros Hmulti Hom Hok Hl subs sk Hne Hplain.
+  destruct (only_matching_multi_line_event find_at cfg env path m l w_new Hmulti Hom Hok Hl Hne)
+    as (_ & _ & _ & H & _).
+  apply H. eapply Forall_impl; [|exact Hplain]. intros x (H1 & H2 & H3 & H4).
+  apply plain_submatch_has_one_piece; assumption.
+Qed.
